@@ -112,6 +112,18 @@ func solve(workDir string, idx int, fx *FuncCtx, ob *Obligation, probes []string
 	}
 	ctx := context.Background()
 	total := time.Duration(0)
+	if false && strings.Contains(q, "(define-fun-rec ") && !ob.Cover {
+		// stage 0: recursive definitions slow unrelated goals down; first try without
+		// them (dropping definitions and the assumptions that mention them only weakens the context)
+		lfile := file + ".lite.smt2"
+		os.WriteFile(lfile, []byte(dropRecFuns(q)), 0o644)
+		st, out, d := runSolver(ctx, solvers[0], lfile, 2000)
+		os.Remove(lfile)
+		total += d
+		if st == "unsat" {
+			return finish(st, solvers[0].name+"(no-recfun)", out, total)
+		}
+	}
 	if !stringsTheory {
 		// stage 1: the solver that decides most goals instantly
 		first := timeoutMs
@@ -311,4 +323,54 @@ func dischargeAll(workDir string, fx *FuncCtx, probes []string, timeoutMs, worke
 	}
 	wg.Wait()
 	return results
+}
+
+// dropRecFuns removes recursive definitions and every assertion mentioning
+// them; when the goal itself mentions one the query is returned unchanged.
+func dropRecFuns(q string) string {
+	lines := strings.Split(q, "\n")
+	var names []string
+	for _, l := range lines {
+		if strings.HasPrefix(l, "(define-fun-rec ") {
+			f := strings.Fields(l[len("(define-fun-rec "):])
+			if len(f) > 0 {
+				names = append(names, f[0])
+			}
+		}
+	}
+	mentions := func(l string) bool {
+		for _, n := range names {
+			if strings.Contains(l, n) {
+				return true
+			}
+		}
+		return false
+	}
+	// the goal is the last assert before (check-sat)
+	for i := len(lines) - 1; i >= 0; i-- {
+		if strings.HasPrefix(lines[i], "(assert (not ") {
+			if mentions(lines[i]) {
+				return q
+			}
+			break
+		}
+	}
+	var b strings.Builder
+	dropped := map[string]bool{}
+	for _, l := range lines {
+		if mentions(l) {
+			// a define-fun that depends on a recursive function: drop it and whatever uses it
+			if strings.HasPrefix(l, "(define-fun ") {
+				f := strings.Fields(l[len("(define-fun "):])
+				if len(f) > 0 {
+					dropped[f[0]] = true
+					names = append(names, f[0])
+				}
+			}
+			continue
+		}
+		b.WriteString(l)
+		b.WriteByte('\n')
+	}
+	return b.String()
 }
